@@ -1,4 +1,4 @@
-import PlasVerif.Proofs.Macro
+import PlasVerif.Proofs.MacroRun
 /-!
 # C02 — Macro definitions expand exactly as TeX's substitution rules say
 
@@ -7,7 +7,7 @@ Property theorems only (helper lemmas: `Proofs/Macro.lean`).  Model = `Model/Mac
 (TeXbook ch. 20).
 -/
 namespace PlasVerif.Properties.C02
-open PlasVerif.Model.Macro PlasVerif.Spec.TeXMacro PlasVerif.Proofs.Macro
+open PlasVerif.Model.Macro PlasVerif.Spec.TeXMacro PlasVerif.Proofs.Macro PlasVerif.Proofs.MacroRun
 
 /-- **Substitution.** For every replacement text of the grammar (tokens, `#k` with `1 ≤ k ≤ n`, `##`;
     any length, any order) and every list of `n` actual arguments, `expandDef` yields exactly TeX's
@@ -43,6 +43,35 @@ theorem call_step_refines_undelimited1 (items : List BItem) (s a rest : List Tok
   simp [invokeDef, invokeDefWith, renderPText, renderParams, hashTok, digitTok, matchGo, Tok.isParam, inDigits,
     Tok.text, isDigit, hr, substBody, hs, Except.map]
 
+/-- **Delimited and undelimited parameters, any parameter text.**  For every parameter text of the grammar
+    (literal prefix, up to 9 parameters, each undelimited or delimited by any non-empty token sequence) and every
+    input on which TeX's matching is defined and NF-prog 3 holds (`nf3`: the text matched by a delimited parameter
+    does not contain the first token of its delimiter; no `$` as undelimited argument), `Definition.invoke`'s
+    pattern walk collects exactly TeX's arguments — shortest match up to the whole delimiter, outer braces of a
+    one-group argument removed — and leaves exactly TeX's rest. -/
+theorem match_delimited_is_tex (pt : PText) (s : List Tok) (args : List (List Tok)) (rest : List Tok)
+    (hn : pt.params.length ≤ 9) (hpre : ∀ t ∈ pt.pre, t.isParam = false)
+    (hdel : ∀ d ∈ pt.params, ∀ t ∈ d, t.isParam = false)
+    (h : texMatch pt s = some (args, rest)) (hnf : nf3 pt s = true) :
+    matchPattern (renderPText pt) s = .ok (none :: args.map some, rest) :=
+  matchPattern_of_texMatch pt s args rest hn hpre hdel h hnf
+
+example : matchPattern (renderPText ⟨[.ch 12 40], [[.ch 12 46, .ch 12 44], []]⟩)
+      [.ch 12 40, .ch 1 123, .ch 11 120, .ch 2 125, .ch 12 46, .ch 12 44, .ch 10 32, .ch 11 121, .ch 11 122]
+    = .ok ([none, some [.ch 11 120], some [.ch 11 121]], [.ch 11 122]) := by rfl
+
+/-- **One macro call in the model = one macro call of TeX**, for every well-formed definition (`WFMacro`: any pattern of
+    delimited/undelimited parameters, any replacement text) and every input inside NF-prog on which TeX's call is
+    defined: same produced tokens, same rest of the input. -/
+theorem call_step_refines (pt : PText) (items : List BItem) (s out rest : List Tok) (wf : WFMacro pt items)
+    (h : texCall pt items s = .ok (out, rest)) :
+    invokeDef (renderPText pt) (renderBody items) s = .ok (out, rest) :=
+  invokeDef_of_texCall pt items s out rest wf h
+
+example : invokeDef (renderPText ⟨[], [[.ch 12 46], []]⟩) (renderBody [.par 2, .tok (.ch 12 45), .par 1])
+      [.ch 1 123, .ch 11 120, .ch 11 121, .ch 2 125, .ch 12 46, .ch 11 122, .ch 11 119]
+    = .ok ([.ch 11 122, .ch 12 45, .ch 11 120, .ch 11 121], [.ch 11 119]) := by rfl
+
 /-- TeX/LaTeX side of the absent case: the default is the argument, nothing but blanks is consumed -/
 theorem optional_default_tex (d s : List Tok)
     (h2 : ∀ t ts, skipBlanks s = t :: ts → isLBrack t = false) : texOptional d s = some (d, skipBlanks s) := by
@@ -58,8 +87,8 @@ theorem optional_default (nargs : Nat) (d s : List Tok)
   unfold collectNewcommand readOptional
   rw [dropSpaces_eq_skipBlanks]
   cases hs : skipBlanks s with
-  | nil => simp
-  | cons t ts => simp [h t ts hs]
+  | nil => simp [optValue]
+  | cons t ts => simp [h t ts hs, optValue]
 
 /-- **Optional argument, present**: the bracket content (outer braces of a one-group content removed, D17). -/
 theorem optional_present (nargs : Nat) (d s ts : List Tok) (t : Tok)
@@ -67,7 +96,49 @@ theorem optional_present (nargs : Nat) (d s ts : List Tok) (t : Tok)
     (collectNewcommand nargs (some d) s).1[1]? = some (some (stripDelimited (readBracket 1 ts).1)) := by
   unfold collectNewcommand readOptional
   rw [dropSpaces_eq_skipBlanks, hs]
-  simp [ht]
+  simp [ht, optValue]
+
+/-- **Optional argument, present, is TeX's**: when the bracket content has no bracket character of its own
+    (NF-prog 3), `#1` is exactly the text TeX delimits by `]`, outer braces of a one-group content removed, and the
+    input continues right after the `]`. -/
+theorem optional_present_is_tex (nargs : Nat) (d s ts p r : List Tok) (t : Tok)
+    (hs : skipBlanks s = t :: ts) (ht : isLBrack t = true)
+    (hscan : texScan [rBrack] 0 ts = some (p, r))
+    (hnf : ∀ x ∈ p, isOpenBr x = false ∧ isCloseBr x = false) :
+    texOptional d s = some (texStrip p, r) ∧
+    (collectNewcommand nargs (some d) s).1[1]? = some (some (texStrip p)) ∧
+    (readOptional s).2 = r := by
+  have hob : isOpenBr t = true := by
+    cases t with
+    | ch cat c => simp [isLBrack] at ht; split at ht <;> simp_all [isOpenBr]
+    | cs n => simp [isLBrack] at ht
+    | el n => simp [isLBrack] at ht
+  have hsplit := texScan_split _ _ _ _ _ hscan
+  have hrb : readBracket 1 ts = (p, r) := by
+    rw [hsplit]; simpa using readBracket_plain r p hnf
+  refine ⟨?_, ?_, ?_⟩
+  · simp [texOptional, hs, ht, hscan]
+  · unfold collectNewcommand readOptional
+    rw [dropSpaces_eq_skipBlanks, hs]
+    simp [hob, hrb, stripDelimited_eq_texStrip, optValue]
+  · unfold readOptional
+    rw [dropSpaces_eq_skipBlanks, hs]
+    simp [hob, hrb]
+
+/-- **One call of a `\\newcommand` macro in the model = one call in LaTeX/TeX**, for every argument count (0–9), with or
+    without optional argument (absent → the declared default; present → the bracket content, NF-prog 3), every
+    replacement text and every input on which the TeX side is defined: same produced tokens, same rest.
+    (`hopen`: a `[` of another category than 12 does not start an optional argument in TeX; the tokenizer never produces one.) -/
+theorem newcommand_call_refines (nargs : Nat) (opt : Option (List Tok)) (items : List BItem)
+    (s out rest : List Tok) (hw : ∀ it ∈ items, WFItem nargs it) (ho : opt.isSome = true → 1 ≤ nargs)
+    (hopen : ∀ t ts, skipBlanks s = t :: ts → isOpenBr t = true → isLBrack t = true)
+    (h : texLatexCall nargs opt items s = .ok (out, rest)) :
+    invokeNewcommand nargs opt (renderBody items) s = .ok (out, rest) :=
+  invokeNewcommand_of_texLatexCall nargs opt items s out rest hw ho hopen h
+
+example : invokeNewcommand 2 (some [.ch 11 68]) (renderBody [.tok (.ch 12 40), .par 1, .tok (.ch 12 44), .par 2, .tok (.ch 12 41)])
+      [.ch 10 32, .ch 12 91, .ch 1 123, .ch 11 111, .ch 2 125, .ch 12 93, .ch 11 121, .ch 11 122]
+    = .ok ([.ch 12 40, .ch 11 111, .ch 12 44, .ch 11 121, .ch 12 41], [.ch 11 122]) := by rfl
 
 example : (collectNewcommand 2 (some [.ch 11 68]) [.ch 11 120]).1 = [none, some [.ch 11 68], some [.ch 11 120]] := by decide
 example : (collectNewcommand 2 (some [.ch 11 68]) [.ch 12 91, .ch 11 111, .ch 12 93, .ch 11 120]).1
@@ -128,50 +199,228 @@ theorem asIs_counterexample :
       = some ([.cs [98], .ch 11 120, .ch 11 121], []) :=
   ⟨rfl, rfl, rfl⟩
 
-/-- `\csname`: with the characters of a name followed by `\endcsname` in the input, one step builds the control sequence
-    and continues with it at the head of the input (concrete instance, checked by evaluation). -/
-example : run 50 ⟨[.cs [99,115,110,97,109,101], .ch 11 122, .ch 11 113, .cs [101,110,100,99,115,110,97,109,101], .ch 11 120],
+/-! ## `\\csname` and `\\expandafter` -/
+
+def csnameName : Name := [99, 115, 110, 97, 109, 101]
+def expandafterName : Name := [101, 120, 112, 97, 110, 100, 97, 102, 116, 101, 114]
+
+theorem macroNameOf_char (cat c : Nat) (h1 : cat ≠ 1) (h2 : cat ≠ 2) : macroNameOf (.ch cat c) = none := by
+  match cat, h1, h2 with
+  | 0, _, _ => rfl
+  | 1, h, _ => exact absurd rfl h
+  | 2, _, h => exact absurd rfl h
+  | n + 3, _, _ => rfl
+
+theorem tooBig_of_le (s : List Tok) (h : s.length ≤ 4000) : tooBig s = false := by
+  simp [tooBig]; omega
+
+/-- the loop inside `\csname`: character tokens up to `\endcsname` are collected into the name, in order, nothing else
+    is consumed and the definitions in force are untouched (any number of characters, any extra fuel) -/
+theorem csnameGo_chars (fx : Bool) (rest : List Tok) (env : Env)
+    (hend : lookup endcsnameName env = some (.prim .endcsname endcsnameName)) :
+    ∀ (chars : List (Nat × Nat)) (acc : List Nat) (e : Nat),
+    (∀ x ∈ chars, x.1 ≠ 1 ∧ x.1 ≠ 2) → chars.length + rest.length + 1 ≤ 4000 →
+    csnameGo fx (chars.length + 3 + e) acc ⟨chars.map (fun x => Tok.ch x.1 x.2) ++ .cs endcsnameName :: rest, env⟩
+      = .ok (acc ++ chars.map (·.2), ⟨rest, env⟩) := by
+  intro chars
+  induction chars with
+  | nil =>
+    intro acc e _ hsz
+    have hb : tooBig (Tok.cs endcsnameName :: rest) = false := tooBig_of_le _ (by simp at hsz ⊢; omega)
+    have h3 : 0 + 3 + e = (e + 1 + 1) + 1 := by omega
+    simp only [List.length_nil, List.map_nil, List.nil_append, h3]
+    simp [csnameGo, next, hb, macroNameOf, invoke, getItem, hend]
+  | cons x xs ih =>
+    intro acc e hc hsz
+    obtain ⟨cat, c⟩ := x
+    have hx := hc (cat, c) List.mem_cons_self
+    have hb : tooBig (Tok.ch cat c :: (xs.map (fun x => Tok.ch x.1 x.2) ++ .cs endcsnameName :: rest)) = false :=
+      tooBig_of_le _ (by simp at hsz ⊢; omega)
+    have h3 : (xs.length + 1) + 3 + e = ((xs.length + 3 + e)) + 1 := by omega
+    have h4 : xs.length + 3 + e = (xs.length + 2 + e) + 1 := by omega
+    have := ih (acc ++ [c]) e (fun y hy => hc y (List.mem_cons_of_mem _ hy)) (by simp at hsz ⊢; omega)
+    simp only [List.length_cons, List.map_cons, List.cons_append, h3]
+    conv => lhs; unfold csnameGo
+    rw [h4]
+    simp only [next, hb, macroNameOf_char cat c hx.1 hx.2]
+    rw [← h4]
+    simpa [Tok.text] using this
+
+/-- TeX's `\csname` on the same input builds the same name and leaves the same rest -/
+theorem texCsname_chars (rest : List Tok) (tbl : Table)
+    (hend : tbl.lookup endcsnameName = some (.prim .endcsname)) :
+    ∀ (chars : List (Nat × Nat)) (acc : List Nat) (e : Nat),
+    (∀ x ∈ chars, x.1 = 10 ∨ x.1 = 11 ∨ x.1 = 12) →
+    texCsname (chars.length + 1 + e) tbl acc (chars.map (fun x => Tok.ch x.1 x.2) ++ .cs endcsnameName :: rest)
+      = .ok (acc ++ chars.map (·.2), rest) := by
+  intro chars
+  induction chars with
+  | nil =>
+    intro acc e _
+    have h1 : ([] : List (Nat × Nat)).length + 1 + e = e + 1 := by simp; omega
+    rw [h1]; simp [texCsname, hend]
+  | cons x xs ih =>
+    intro acc e hc
+    obtain ⟨cat, c⟩ := x
+    have hx := hc (cat, c) List.mem_cons_self
+    have := ih (acc ++ [c]) e (fun y hy => hc y (List.mem_cons_of_mem _ hy))
+    have h3 : (xs.length + 1) + 1 + e = (xs.length + 1 + e) + 1 := by omega
+    simp only [List.length_cons, List.map_cons, List.cons_append, h3]
+    simp only [texCsname]
+    simp only at hx
+    simp [hx, this]
+
+/-- **`\csname … \endcsname` builds the control sequence named by the characters.**  One round of the expansion loop
+    at `\csname c₁…cₙ\endcsname rest` continues exactly as at `\c₁…cₙ rest`, with the definitions in force unchanged —
+    for every name length and every extra fuel; TeX's rule (`texCsname_chars`) yields the same name and the same rest. -/
+theorem csname_builds_name (fx : Bool) (chars : List (Nat × Nat)) (rest : List Tok) (env : Env) (nm : Name) (e : Nat)
+    (hcs : lookup csnameName env = some (.prim .csname nm))
+    (hend : lookup endcsnameName env = some (.prim .endcsname endcsnameName))
+    (hc : ∀ x ∈ chars, x.1 ≠ 1 ∧ x.1 ≠ 2) (hsz : chars.length + rest.length + 2 ≤ 4000) :
+    next fx (chars.length + 5 + e)
+        ⟨.cs csnameName :: (chars.map (fun x => Tok.ch x.1 x.2) ++ .cs endcsnameName :: rest), env⟩
+      = next fx (chars.length + 3 + e) ⟨.cs (chars.map (·.2)) :: rest, env⟩ := by
+  have hb : tooBig (Tok.cs csnameName :: (chars.map (fun x => Tok.ch x.1 x.2) ++ .cs endcsnameName :: rest)) = false :=
+    tooBig_of_le _ (by simp; omega)
+  have h5 : chars.length + 5 + e = ((chars.length + 3 + e) + 1) + 1 := by omega
+  have hg := csnameGo_chars fx rest env hend chars [] e hc (by omega)
+  rw [h5]
+  conv => lhs; unfold next
+  simp only [hb, macroNameOf]
+  conv => lhs; unfold invoke
+  simp only [getItem, hcs, hg]
+  simp
+
+example : run false 50 ⟨[.cs [99,115,110,97,109,101], .ch 11 122, .ch 11 113, .cs [101,110,100,99,115,110,97,109,101], .ch 11 120],
     newdef [122, 113] [] (some [.ch 11 81]) true initEnv⟩ = .ok [81, 120] := by rfl
 
-/-! ## statements kept at full strength, not proved in this round (tied by the correspondence streams) -/
+/-- **`\expandafter` expands the second token exactly once and puts the first one back in front.**  With `\n₂` a
+    user macro whose call on the following input produces `exp` (possibly empty) and leaves `rest''`, the tokens returned
+    by `\expandafter t₁ \n₂ …` are `t₁` followed by `exp`, not expanded further, and the input continues at `rest''`. -/
+theorem expandafter_reorders_model (fx : Bool) (t1 : Tok) (n2 : Name) (rest' exp rest'' : List Tok) (env : Env)
+    (args : List Tok) (body : List Tok) (f : Nat)
+    (hl : lookup n2 env = some (.defn args (some body)))
+    (hcall : invokeDef args body rest' = .ok (exp, rest'')) :
+    expAfter fx (f + 2) (t1 :: .cs n2 :: rest') env = .ok (t1 :: exp, ⟨rest'', env⟩) := by
+  conv => lhs; unfold expAfter
+  simp only
+  conv => lhs; unfold expandOnce
+  simp [getItem, hl, hcall]
 
-/-- delimited parameters (any number, multi-token delimiters, literal prefix), under NF-prog 3 -/
-def match_delimited_is_tex_statement : Prop :=
-  ∀ (pt : PText) (items : List BItem) (s : List Tok) (out rest : List Tok),
-    (∀ it ∈ items, WFItem pt.params.length it) → pt.params.length < 10 →
-    (∀ t ∈ pt.pre, t.isParam = false ∧ t.isBg = false) →
-    (∀ d ∈ pt.params, ∀ t ∈ d, t.isParam = false ∧ t.isBg = false) →
-    (∀ t ∈ s, t.isMath = false) →
-    texCall pt items s = .ok (out, rest) →
-    invokeDef (renderPText pt) (renderBody items) s = .ok (out, rest)
+/-- TeX's rule for the same situation -/
+theorem expandafter_reorders_tex (t1 : Tok) (n2 : Name) (rest' exp rest'' : List Tok) (tbl : Table)
+    (pt : PText) (items : List BItem) (f : Nat)
+    (hea : tbl.lookup expandafterName = some (.prim .expandafter))
+    (hl : tbl.lookup n2 = some (.macro pt items))
+    (hcall : texCall pt items rest' = .ok (exp, rest'')) :
+    texExpand (f + 2) tbl expandafterName (t1 :: .cs n2 :: rest') = .ok (some (t1 :: (exp ++ rest''))) := by
+  conv => lhs; unfold texExpand
+  simp only [hea]
+  conv => lhs; unfold texExpand
+  simp [hl, hcall, Except.map]
 
-/-- whole programs: model run = independent TeX evaluation, wherever the latter is defined (NF-prog) -/
+/-- **`\expandafter` reorders as in TeX**: for every well-formed macro `\n₂` (any parameter text) and every input in
+    NF-prog on which TeX's call of `\n₂` is defined (also with an empty result, D50 fix), the model's `\expandafter` step produces
+    exactly the token list TeX's `\expandafter` produces (`t₁`, then the one-step expansion of `\n₂`, then the rest). -/
+theorem expandafter_reorders (fx : Bool) (t1 : Tok) (n2 : Name) (rest' exp rest'' : List Tok) (env : Env) (tbl : Table)
+    (pt : PText) (items : List BItem) (f : Nat) (wf : WFMacro pt items)
+    (hea : tbl.lookup expandafterName = some (.prim .expandafter))
+    (hm : lookup n2 env = some (.defn (renderPText pt) (some (renderBody items))))
+    (ht : tbl.lookup n2 = some (.macro pt items))
+    (hcall : texCall pt items rest' = .ok (exp, rest'')) :
+    (expAfter fx (f + 2) (t1 :: .cs n2 :: rest') env).toOption.map (fun r => r.1 ++ r.2.input)
+      = (texExpand (f + 2) tbl expandafterName (t1 :: .cs n2 :: rest')).toOption.map (fun o => o.getD []) := by
+  rw [expandafter_reorders_model fx t1 n2 rest' exp rest'' env _ _ f hm
+        (call_step_refines pt items rest' exp rest'' wf hcall),
+      expandafter_reorders_tex t1 n2 rest' exp rest'' tbl pt items f hea ht hcall]
+  simp [Except.toOption]
+
+example : run false 60 ⟨[.cs expandafterName, .cs [97], .cs [98], .ch 11 122],
+    newdef [98] [] (some [.ch 11 112, .ch 11 113]) true
+      (newdef [97] [hashTok, digitTok 1, hashTok, digitTok 2] (some [.ch 12 91, hashTok, digitTok 1, .ch 12 124, hashTok, digitTok 2, .ch 12 93]) true initEnv)⟩
+    = .ok [91, 112, 124, 113, 93, 122] := by rfl
+
+/-! ## known finding D49: `\\expandafter` in front of an unexpandable primitive (dual-variant model) -/
+
+/-- the witness `\gdef\zqd{C}\expandafter\begingroup\def\zqd{x}\endgroup\zqd` -/
+def d49Witness : List Tok :=
+  [.cs [103, 100, 101, 102], .cs [122, 113, 100], .ch 1 123, .ch 11 67, .ch 2 125, .cs expandafterName, .cs [98, 101, 103, 105, 110, 103, 114, 111, 117, 112], .cs [100, 101, 102], .cs [122, 113, 100], .ch 1 123, .ch 11 120, .ch 2 125, .cs [101, 110, 100, 103, 114, 111, 117, 112], .cs [122, 113, 100]]
+
+/-- **Repaired variant**: when the second token is bound to an unexpandable primitive (anything but `\csname` and
+    `\expandafter`), `\expandafter t₁ \n₂` returns `t₁ \n₂` untouched, consumes nothing else and changes no definition —
+    exactly TeX's rule (`texExpand` answers "not expandable" and the tokens are put back). -/
+theorem expandafter_unexpandable_repaired (t1 : Tok) (n2 nm : Name) (p : Prim) (rest' : List Tok) (env : Env) (f : Nat)
+    (hl : lookup n2 env = some (.prim p nm)) (h1 : p ≠ .csname) (h2 : p ≠ .expandafter) :
+    expAfter true (f + 2) (t1 :: .cs n2 :: rest') env = .ok ([t1, .cs n2], ⟨rest', env⟩) := by
+  conv => lhs; unfold expAfter
+  simp only
+  conv => lhs; unfold expandOnce
+  cases p <;> simp_all [getItem]
+
+theorem expandafter_unexpandable_tex (t1 : Tok) (n2 : Name) (p : TPrim) (rest' : List Tok) (tbl : Table) (f : Nat)
+    (hea : tbl.lookup expandafterName = some (.prim .expandafter))
+    (hl : tbl.lookup n2 = some (.prim p)) (h1 : p ≠ .csname) (h2 : p ≠ .expandafter) :
+    texExpand (f + 2) tbl expandafterName (t1 :: .cs n2 :: rest') = .ok (some (t1 :: .cs n2 :: rest')) := by
+  conv => lhs; unfold texExpand
+  simp only [hea]
+  conv => lhs; unfold texExpand
+  cases p <;> simp_all
+
+/-- **As-is variant, kernel-checked counterexample**: on the witness the code as it is prints `x` (the `\def` is executed
+    by `\expandafter` before `\begingroup` opens the group, so it is not undone by `\endgroup`), TeX prints `C`,
+    and the repaired variant prints `C`. -/
+theorem asIs_counterexample_D49 :
+    runProgram 60 d49Witness = .ok [120] ∧
+    (texProgram 60 d49Witness).toOption = some [67] ∧
+    runProgramRepaired 60 d49Witness = .ok [67] :=
+  ⟨rfl, rfl, rfl⟩
+
+/-! ## whole programs -/
+
+/-- **Program-level equality for the fragment {definitions, calls, groups, `\\let`, `\\relax`}.**
+    `texRun fragOk` is the independent TeX evaluator of `Spec/TeXMacro.lean` started with the primitives
+    `\def \gdef \let \relax \begingroup \endgroup` (`fragTable`) — so `\newcommand`, `\csname`, `\expandafter` are undefined,
+    i.e. outside — and restricted by `fragOk` (no definition of `\bgroup`/`\egroup`/`\=`; no `\ifx` in a replacement text;
+    no `##` in the replacement text of a macro without any parameter text).  For EVERY program `p` (any token list: any
+    number of definitions with any parameter texts, local and global, nested calls in bodies and arguments, aliases,
+    groups nested to any depth) and EVERY fuel: if TeX's evaluation is defined — which includes NF-prog 3 at every call —
+    and prints `v`, then the model of plasTeX's expansion loop, started in the corresponding frame (`fragEnv`), prints
+    exactly `v` for all sufficiently large fuel, in both variants of the known finding D49. -/
+theorem run_eq_texRun_fragment (fx : Bool) (fuel : Nat) (p : List Tok) (v : List Nat)
+    (h : texRun fragOk fuel ⟨p, fragTable, []⟩ = .ok v) :
+    ∃ F, ∀ k, run fx (F + k) ⟨p, fragEnv⟩ = .ok v := by
+  obtain ⟨F, hF⟩ := run_of_texRun_frag fx fuel p v h
+  exact ⟨F, fun k => run_mono fx F k _ v hF⟩
+
+private def cs (s : String) : Tok := .cs (nm s)
+private def lt (c : Char) : Tok := .ch 11 c.toNat
+private def ot (c : Char) : Tok := .ch 12 c.toNat
+private def bgT : Tok := .ch 1 123
+private def egT : Tok := .ch 2 125
+
+/-- `\def\a#1.#2{[#2#1]}{\gdef\b{Q}\let\c\a \def\a{z}\c xy.{w}\a}\b\a{k}.m`  prints  `[wxy]zQ[mk]` -/
+def fragExample : List Tok :=
+  [cs "def", cs "a", hashTok, digitTok 1, ot '.', hashTok, digitTok 2, bgT, ot '[', hashTok, digitTok 2, hashTok, digitTok 1, ot ']', egT,
+   bgT, cs "gdef", cs "b", bgT, lt 'Q', egT, cs "let", cs "c", cs "a", cs "def", cs "a", bgT, lt 'z', egT,
+        cs "c", lt 'x', lt 'y', ot '.', bgT, lt 'w', egT, cs "a", egT,
+   cs "b", cs "a", bgT, lt 'k', egT, ot '.', lt 'm']
+
+example : (texRun fragOk 40 ⟨fragExample, fragTable, []⟩).toOption = some ("[wxy]zQ[mk]".toList.map Char.toNat) := by rfl
+example : run false 40 ⟨fragExample, fragEnv⟩ = .ok ("[wxy]zQ[mk]".toList.map Char.toNat) := by rfl
+
+/-! ## statement kept at full strength, not proved -/
+
+/-- Whole programs of the full macro language (with `\newcommand`, `\csname`, `\expandafter`, `##` in parameterless
+    macros): the repaired variant of the model prints what the TeX evaluator prints, wherever the latter is defined.
+    NOT PROVED.  Missing: (1) the analogue of `call_step_refines` for `NewCommand.invoke` against `texLatexCall` (optional
+    argument present: `readBracket` against `texScan [rBrack]` under `nf3Optional`) and of `readDefParts_of_texReadDef` for
+    `\newcommand`'s argument parsing; (2) a simulation for the nested expanding loop of `\csname` (`csnameGo` calls `next`,
+    TeX's `texCsname` calls `texExpand`) and for `\expandafter` chains (the step theorems `csname_builds_name`,
+    `expandafter_reorders`, `expandafter_unexpandable_repaired` cover one step each); (3) a token relation "equal up to `##`
+    versus `#`" for parameterless macros containing an inner definition (the code returns their text with the `##`
+    still doubled and undoubles it in the inner `\def`).  These parts are tied by the `prog` correspondence stream. -/
 def run_eq_texRun_statement : Prop :=
   ∀ (fuel : Nat) (p : List Tok) (v : List Nat),
-    texProgram fuel p = .ok v → ∃ fuel', runProgram fuel' p = .ok v
-
-theorem run_step_char (f cat c : Nat) (rest : List Tok) (env : Env) (hc : cat = 11 ∨ cat = 12)
-    (hb : tooBig (.ch cat c :: rest) = false) :
-    run (f + 2) ⟨.ch cat c :: rest, env⟩ = (run (f + 1) ⟨rest, env⟩).map (c :: ·) := by
-  rcases hc with rfl | rfl
-  · conv => lhs; unfold run
-    simp only [next, hb, macroNameOf, visibleOf]; rfl
-  · conv => lhs; unfold run
-    simp only [next, hb, macroNameOf, visibleOf]; rfl
-
-/-- proved part of `run_eq_texRun_statement`: programs consisting of letters and other characters only
-    (no macro call, no group); everything else is carried by the `prog` correspondence stream -/
-theorem run_eq_texRun_partial (cs : List (Nat × Nat)) (h : ∀ x ∈ cs, x.1 = 11 ∨ x.1 = 12) (hl : cs.length ≤ 4000) (env : Env) :
-    run (cs.length + 2) ⟨cs.map (fun x => .ch x.1 x.2), env⟩ = .ok (cs.map (·.2)) := by
-  induction cs with
-  | nil => rfl
-  | cons x xs ih =>
-    obtain ⟨cat, c⟩ := x
-    have hx := h (cat, c) List.mem_cons_self
-    have hxs := ih (fun y hy => h y (List.mem_cons_of_mem _ hy)) (by simp at hl; omega)
-    have hbig : tooBig (Tok.ch cat c :: xs.map (fun x => Tok.ch x.1 x.2)) = false := by
-      simp [tooBig]; simp at hl; omega
-    simp only [List.map, List.length]
-    rw [run_step_char _ cat c _ env hx hbig, hxs]; rfl
+    texProgram fuel p = .ok v → ∃ fuel', ∀ k, runProgramRepaired (fuel' + k) p = .ok v
 
 end PlasVerif.Properties.C02
